@@ -69,6 +69,19 @@ def run(rep, tier, rng):
                             {"op": "sp-power", "alg": al, "v": v, "e": e, "obs": c.obs_json(o2),
                              "py": f"(SemanticPointer(v, vocab=spa.Vocabulary(len(v), algebra=A)) ** {e}).v"},
                             ("sp-power", al, tuple(v), e), nontrivial=any(v))
+            # ---- the inherited default implementation (an algebra that does not override binding_power) ---------
+            if al in ("AHrr", "ATvtb") and d <= 9:
+                from nengo_spa.algebras.base import AbstractAlgebra
+                Default = type("DefaultPower" + type(A).__name__, (type(A),), {"binding_power": AbstractAlgebra.binding_power})
+                G = Default()
+                for _ in range(2):
+                    v = algs.rand_vec(rng, d, -2, 2)
+                    for e in (-3, -2, -1, 0, 1, 2, 3):
+                        big = max(1, max(abs(x) for x in v)) ** (abs(e) + 1) * d ** max(abs(e), 1)
+                        og = c.observe(lambda: G.binding_power(algs.fl(v), e))
+                        add(f"check_power {al} {c.zlist(v)} {c.b(e < 0)} {c.nat(abs(e))} ({c.z(big)}, 1000000000%Z) {obs_t(og)}",
+                            {"op": "power-inherited-default", "alg": al, "v": v, "e": e, "obs": c.obs_json(og), "py": f"AbstractAlgebra.binding_power(A, v, {e})"},
+                            ("power-default", al, tuple(v), e), nontrivial=any(v))
             # ---- unitary vectors: relations on exact outputs --------------
             srcs = []
             for _ in range(2 if quick else 5):
@@ -81,6 +94,20 @@ def run(rep, tier, rng):
                 for wsp in specials:
                     srcs.append(("make_unitary-special", c.observe(lambda: A.make_unitary(wsp)), wsp))
                     srcs.append(("sp-unitary-special", c.observe(lambda: SemanticPointer(wsp, vocab=voc).unitary().v), wsp))
+            if al != "AHrr" and d > 1:
+                # matrices with a singular leading minor: make_unitary may refuse, but what it returns (finite) must be unitary
+                sdim = int(round(d ** 0.5))
+                sing = [np.fliplr(np.eye(sdim)).flatten(), np.roll(np.eye(sdim), 1, axis=1).flatten()]
+                m0 = np.array([[rng.gauss(0, 1) for _ in range(sdim)] for _ in range(sdim)])
+                m0[0, 0] = 0.0
+                sing.append(m0.flatten())
+                for wsp in sing:
+                    with np.errstate(all="ignore"):
+                        osp = c.observe(lambda: A.make_unitary(wsp))
+                    if osp[0] == "ok" and np.all(np.isfinite(np.asarray(osp[1], dtype=float))):
+                        srcs.append(("make_unitary-singular-minor", osp, wsp))
+                    else:
+                        rep.count("make_unitary-refused-or-nan")
             srcs.append(("sp-unitary", c.observe(lambda: SemanticPointer(w, vocab=voc).unitary().v), w))
             srcs.append(("UnitaryVectors", c.observe(lambda: next(UnitaryVectors(d, A, rng=np.random.RandomState(rng.randrange(10 ** 6))))), None))
             for nm, o, w in srcs:
